@@ -7,6 +7,8 @@
 #include <symengine/number.h>
 #include <symengine/integer.h>
 #include <symengine/symbol.h>
+#include <symengine/real_double.h>
+#include <symengine/complex_double.h>
 #include <symengine/visitor.h>
 #include <symengine/utilities/stream_fmt.h>
 
@@ -550,6 +552,20 @@ RCP<const Basic> load_basic(Archive &ar, RCP<const Complex> &)
     RCP<const Number> num, den;
     ar(num, den);
     return Complex::from_two_nums(*num, *den);
+}
+template <class Archive>
+RCP<const Basic> load_basic(Archive &ar, RCP<const ComplexDouble> &)
+{
+    // Build the value from the two stored doubles: re + I*im computed with
+    // addnum/mulnum turns -0.0 into 0.0 and an infinite part into NaN.
+    RCP<const Number> re, im;
+    ar(re, im);
+    if (not(is_a<RealDouble>(*re) and is_a<RealDouble>(*im))) {
+        throw SerializationError("Invalid ComplexDouble");
+    }
+    return complex_double(
+        std::complex<double>(down_cast<const RealDouble &>(*re).i,
+                             down_cast<const RealDouble &>(*im).i));
 }
 template <class Archive, class T>
 RCP<const Basic>
